@@ -156,6 +156,9 @@ func (c *Ctx) signerSequence(i int, rng *rand.Rand) {
 				h = last.H - 1 - int64(rng.Intn(2))
 			case 1:
 				h, r = last.H, last.R-1
+				if last.R > 1000 && rng.Intn(2) == 0 {
+					r = int32(rng.Intn(4))
+				}
 			default:
 				h, r, step = last.H, last.R, last.S-1
 			}
@@ -170,6 +173,13 @@ func (c *Ctx) signerSequence(i int, rng *rand.Rand) {
 				curR = 0
 			case 1:
 				curR++
+				if rng.Intn(12) == 0 {
+					// very high rounds: comparisons must not wrap
+					hr := []int32{1 << 29, 1<<30 + 5, 1<<31 - 2}[rng.Intn(3)]
+					if hr > curR {
+						curR = hr
+					}
+				}
 			}
 			h, r = curH, curR
 		}
@@ -224,7 +234,17 @@ func (c *Ctx) signerSequence(i int, rng *rand.Rand) {
 			c.Count("write-faults-injected", 1)
 		}
 		if panicked {
-			// the process would have died: continue with a signer reloaded from disk, nothing was released
+			// the process would have died. Even so, the message object must not already carry a fresh valid
+			// signature whose record is not on disk (whoever survives the panic could send it).
+			if len(sig) > 0 && pub.VerifySignature(signBytes, sig) {
+				onDisk, ferr := readStateFile(stFile)
+				if ferr != nil || !bytes.Equal(onDisk.Sig, sig) {
+					trace = append(trace, req+" -> panic, but the message carries a signature")
+					bad("released-before-durable", fmt.Sprintf("persisting the record for %s failed, yet the message already carries a valid signature that is not on disk", req))
+					return
+				}
+			}
+			// continue with a signer reloaded from disk, nothing was released
 			trace = append(trace, req+" -> panic (no release)")
 			pv = rcrypto.LoadSFilePV(keyFile, stFile, nil)
 			c.Count("write-fault-refusals", 1)
